@@ -31,7 +31,7 @@ func init() {
 	register(&CheckDef{
 		ID:    "C11",
 		Title: "Block/chunk framing round-trips every record at every offset",
-		Reach: []string{"done", "multi-chunk", "padded-tail", "both-io-compared", "reopened", "reopened-with-padded-tail", "positional-offset-checked", "sequential-offset-checked", "reader-across-truncate"},
+		Reach: []string{"done", "multi-chunk", "padded-tail", "both-io-compared", "reopened", "reopened-with-padded-tail", "positional-offset-checked", "sequential-offset-checked", "reader-across-truncate", "reader-resumed-after-append"},
 		Jobs: func(tier string) []JobSpec {
 			var js []JobSpec
 			add := func(name string, b int, params map[string]int64) {
@@ -43,6 +43,8 @@ func init() {
 				add("B32-mmap-1rec", 32, p("n", 1, "maxlen", 70, "io", 1))
 				add("B32-std-batch2", 32, p("n", 2, "maxlen", 34, "io", 0, "batch", 1))
 				// close, reopen (same / other back-end), read everything again, append one more record
+				add("B32-std-1rec-reader-resumed-after-append", 32, p("n", 1, "maxlen", 40, "io", 0, "resumeread", 1))
+				add("B32-mmap-1rec-reader-resumed-after-append", 32, p("n", 1, "maxlen", 40, "io", 1, "resumeread", 1))
 				add("B32-std-2rec-reader-across-truncate", 32, p("n", 2, "maxlen", 12, "io", 0, "truncread", 1))
 				add("B32-mmap-2rec-reader-across-truncate", 32, p("n", 2, "maxlen", 12, "io", 1, "truncread", 1))
 				add("B32-std-1rec-reopen-append", 32, p("n", 1, "maxlen", 40, "io", 0, "reopen", 1))
